@@ -12,7 +12,7 @@ documents and all option flags are — and instantiates it with the `canonical_*
 `Props/C03Doc.lean`.
 -/
 namespace CV.C03.Whole
-open CV CV.Pipeline
+open CV CV.Pipeline CV.Val
 
 /-- `processRawYaml` from `override.Merge` up to (not including) `transform.Canonical` -/
 def preCanonical (c : Cfg) (dict : Val) (cfg : Val.KVs) : Out Val :=
@@ -125,5 +125,84 @@ theorem load_service_attr_short_eq_long (c : Cfg) (top1 top2 svcs1 svcs2 a b : V
   load_short_eq_long_first c short long rest
     ⟨short, long, _, _, front_skip c short hi he, front_skip c long hi he, hs, hl, by
       rw [hi]; exact Short.canonical_service_attr_congr true top1 top2 svcs1 svcs2 a b n k v v' ht⟩
+
+theorem lookup_none' {k : String} : ∀ {m : KVs}, k ∉ m.map Prod.fst → lookup k m = none
+  | [], _ => rfl
+  | (k', v) :: r, h => by
+    simp only [List.map_cons, List.mem_cons, not_or] at h
+    simp only [lookup, h.1, if_false]
+    exact lookup_none' h.2
+
+theorem insert_absent' {k : String} {v : Val} : ∀ {m : KVs}, lookup k m = none → Val.insert k v m = m ++ [(k, v)]
+  | [], _ => rfl
+  | (k', v') :: r, h => by
+    simp only [lookup] at h
+    split at h
+    · cases h
+    · rename_i hne
+      simp only [Val.insert, hne, if_false, List.cons_append]
+      rw [insert_absent' h]
+
+/-- merging a mapping with distinct keys into a mapping that has none of them appends it, untouched -/
+theorem mergeKVsWith_fresh (f : Val → Val → TPath → Merge.Out Val) (p : TPath) : ∀ (cfg acc : KVs),
+    ((acc ++ cfg).map Prod.fst).Nodup → Merge.mergeKVsWith f acc cfg p = .ok (acc ++ cfg)
+  | [], acc, _ => by simp [Merge.mergeKVsWith]
+  | (k, v) :: r, acc, h => by
+    have hk : k ∉ acc.map Prod.fst := by
+      simp only [List.map_append, List.map_cons, List.nodup_append, List.nodup_cons] at h
+      intro hm
+      exact h.2.2 k hm k (by simp) rfl
+    have hl := lookup_none' hk
+    have := mergeKVsWith_fresh f p r (acc ++ [(k, v)]) (by simpa using h)
+    simp only [Merge.mergeKVsWith, hl, insert_absent' hl, this, List.append_assoc, List.singleton_append]
+
+/-- the first document: `override.Merge` into the empty model is the document itself -/
+theorem merge_into_empty (cfg : KVs) (h : (cfg.map Prod.fst).Nodup) : Merge.merge (.map []) (.map cfg) = .ok (.map cfg) := by
+  have hr : Merge.ruleAt TPath.root = none := by decide
+  have := mergeKVsWith_fresh (Merge.mergeYaml (Merge.depth (Val.map cfg) + 7)) TPath.root cfg [] (by simpa using h)
+  have hf : Merge.fuelFor (Val.map cfg) = (Merge.depth (Val.map cfg) + 7) + 1 := rfl
+  simp only [Merge.merge]
+  rw [hf, Merge.mergeYaml]
+  simp only [Merge.mergeStep, hr, Merge.defaultStep, this, Merge.Out.bind, List.nil_append]
+
+/-- … so with `SkipValidation` the stages in front of `Canonical` reduce, for a first document with distinct top-level
+keys, to `EnforceUnicity` of the document itself -/
+theorem preCanonical_first (c : Cfg) (cfg : KVs) (h : (cfg.map Prod.fst).Nodup) (hv : c.opts.skipValidation = true) :
+    preCanonical c (.map []) cfg = ofMerge "unicity" (Unicity.enforceTop (.map cfg)) := by
+  have hs : ∀ d, schemaStage c.opts d = .ok d := by intro d; simp [schemaStage, hv]
+  simp only [preCanonical, merge_into_empty cfg h, ofMerge, Out.bind, hs]
+  cases Unicity.enforceTop (.map cfg) <;> rfl
+
+/-- **instance, first file, any attribute of a service, no hypothesis about the pipeline's own stages**: the document
+`top1 ++ services: {…, n: {…, k: v, …}, …} ++ top2` with distinct top-level keys, in which `EnforceUnicity` finds nothing to
+fold (true of every document whose `ports` / `volumes` / … entries are already distinct), loads — with any further files —
+exactly like the same document with `v'` for `v`, whenever `v` and `v'` have the same transform at `services.n.k` -/
+theorem load_first_service_attr (c : Cfg) (top1 top2 svcs1 svcs2 a b : KVs) (n k : String) (v v' : Val) (rest : List KVs)
+    (hi : c.opts.skipInterpolation = true) (he : c.opts.skipExtends = true) (hv : c.opts.skipValidation = true)
+    (hk : ((top1 ++ ("services", Val.null) :: top2).map Prod.fst).Nodup)
+    (hu : Unicity.enforceTop (Short.docWith top1 top2 svcs1 svcs2 a b n k v) = .ok (Short.docWith top1 top2 svcs1 svcs2 a b n k v))
+    (hu' : Unicity.enforceTop (Short.docWith top1 top2 svcs1 svcs2 a b n k v') = .ok (Short.docWith top1 top2 svcs1 svcs2 a b n k v'))
+    (ht : Short.transform true (Short.attrPath n k) v = Short.transform true (Short.attrPath n k) v') :
+    load c ((top1 ++ ("services", .map (svcs1 ++ (n, .map (a ++ (k, v) :: b)) :: svcs2)) :: top2) :: rest)
+      = load c ((top1 ++ ("services", .map (svcs1 ++ (n, .map (a ++ (k, v') :: b)) :: svcs2)) :: top2) :: rest) := by
+  apply load_service_attr_short_eq_long c top1 top2 svcs1 svcs2 a b n k v v' rest _ _ hi he ht
+  · rw [preCanonical_first c _ (by simpa using hk) hv]
+    simp only [Short.docWith] at hu
+    rw [hu]; rfl
+  · rw [preCanonical_first c _ (by simpa using hk) hv]
+    simp only [Short.docWith] at hu'
+    rw [hu']; rfl
+
+/-- non-vacuity: `depends_on: [db]` vs `depends_on: {db: {condition: service_started, required: true}}` in a two-service file -/
+example (c : Cfg) (rest : List KVs) (hi : c.opts.skipInterpolation = true) (he : c.opts.skipExtends = true)
+    (hv : c.opts.skipValidation = true) :
+    load c ([("services", .map [("web", .map [("image", .str "i"), ("depends_on", .seq [.str "db"])]), ("db", .map [("image", .str "d")])])] :: rest)
+      = load c ([("services", .map [("web", .map [("image", .str "i"), ("depends_on", .map [("db", Short.startedRequired)])]), ("db", .map [("image", .str "d")])])] :: rest) := by
+  have ht := Short.transformDependsOn_short_eq_long ["db"] (by simp)
+  exact load_first_service_attr c [] [] [] [("db", .map [("image", .str "d")])] [("image", .str "i")] [] "web" "depends_on"
+    (.seq [.str "db"]) (.map [("db", Short.startedRequired)]) rest hi he hv (by decide) (by rfl) (by rfl) (by
+      have hp := (Short.dispatch (Short.seg "web") "").2.2.2.2.2.2.2.2.2.2.1
+      rw [Short.attrPath_eq, Short.seg_depends_on, Short.transform_leaf_at true _ _ _ hp (by decide), Short.transform_leaf_at true _ _ _ hp (by decide)]
+      simpa [Short.leaf] using ht.1.trans ht.2.symm)
 
 end CV.C03.Whole
